@@ -342,6 +342,11 @@ fn fixed_cases() -> Vec<(&'static str, String)> {
         ("fixed:mixed-canon", "local foo = {\n \"array field\",\n bar = \"dictionary field\",\n}\n".to_owned()),
         ("fixed:ctc-canon", "if x == { \"a\", \"b\", \"c\" } then\nend\nif x == {} then\nend\n".to_owned()),
         ("fixed:typecheck-canon", "return type(foo == \"number\")\n".to_owned()),
+        // the canonical patterns with trivia attached to the very tokens the lints look at (callee, operator, operands)
+        ("fixed:typecheck-trivia", "return type (foo == \"number\"), type --[[ c ]] (foo ~= \"x\"), type\n  (foo == \"y\")\n".to_owned()),
+        ("fixed:div-zero-trivia", "print(1 --[[ a ]] / --[[ b ]] 0)\nprint(1 /\n  0)\nprint( 0 / 0 )\n".to_owned()),
+        ("fixed:nan-trivia", "print(x == 0 --[[ c ]] / 0)\nprint(x --[[ c ]] ~= 0/0)\n".to_owned()),
+        ("fixed:reverse-trivia", "for i = # t , 1 do\nend\nfor i = #t --[[ c ]], 1 do\nend\n".to_owned()),
         ("fixed:paren-canon", "if (x) then\nend\nrepeat\nuntil (x)\nwhile (x) do\nend\n".to_owned()),
     ]
 }
@@ -464,7 +469,7 @@ pub fn run(args: &Args, out: &mut Out) {
             out.bump("unsupported_syntax");
             continue;
         }
-        if origin.starts_with("template") && !origin.ends_with(":layout") && !src.contains('\r') && rng.chance(1, 2) {
+        if origin.starts_with("template") && !origin.ends_with(":layout") && !src.contains('\r') {
             let twin = crate::twin::trivia_twin(&src, &d, &mut rng, out);
             if twin != src {
                 queue.push_back((format!("{origin}:layout"), twin));
